@@ -41,6 +41,7 @@ type FuncSpec struct {
 	Props      []string
 	Lets       []*Clause
 	Requires   []*Clause
+	Assumes    []*Clause // assumed at entry, not required of callers (heap well-formedness)
 	Ensures    []*Clause
 	XEnsures   []*Clause
 	Modifies   []*Clause
@@ -102,7 +103,7 @@ var topKeywords = map[string]bool{"declare": true, "type": true, "func": true, "
 var subKeywords = map[string]bool{"requires": true, "ensures": true, "xensures": true, "invariant": true, "decreases": true,
 	"modifies": true, "let": true, "loop": true, "implements": true, "props": true, "pure": true, "nopanic": true, "inline": true,
 	"view": true, "modelfield": true, "guarded_by": true, "trusted": true, "safe": true, "opaque": true, "noverify": true, "immutable": true,
-	"uses": true, "hypothesis": true, "mayblock": true, "terminates": true, "nilok": true, "noinv": true, "noxinv": true, "noframe": true, "constructor": true}
+	"assumes": true, "uses": true, "hypothesis": true, "mayblock": true, "terminates": true, "nilok": true, "noinv": true, "noxinv": true, "noframe": true, "constructor": true}
 
 var clauseHead = regexp.MustCompile(`^([a-z_]+)(\[[A-Za-z0-9, ]+\])?\s*(.*)$`)
 
@@ -343,6 +344,8 @@ func (c *Contracts) loadFile(path string) error {
 				case "requires":
 					cl.Ord = len(fs.Requires) + 1
 					fs.Requires = append(fs.Requires, cl)
+				case "assumes":
+					fs.Assumes = append(fs.Assumes, cl)
 				case "ensures":
 					cl.Ord = len(fs.Ensures) + 1
 					fs.Ensures = append(fs.Ensures, cl)
@@ -429,7 +432,7 @@ func parseClause(l rawLine, path string) (*Clause, error) {
 		}
 	}
 	switch cl.Kind {
-	case "requires", "ensures", "xensures", "invariant", "decreases", "view", "hypothesis":
+	case "requires", "ensures", "xensures", "invariant", "decreases", "view", "hypothesis", "assumes":
 		e, err := ParseExpr(cl.Text)
 		if err != nil {
 			return nil, fmt.Errorf("%s:%d: %v", path, l.line, err)
